@@ -127,6 +127,11 @@ const synthWindow = 0x4000
 func c64(v uint64) expr.Const { return expr.ConstFromUint(v) }
 
 func drawSReg(t *rapid.T, label string) expr.Key {
+	// Registers and memory address spaces are separate name spaces: now and then a
+	// register carries the name of one of the memory keys.
+	if uniformInt(t, 16, label+"memName") == 0 {
+		return synthMems[uniformInt(t, len(synthMems), label+"mn")]
+	}
 	return synthRegs[uniformInt(t, len(synthRegs), label)]
 }
 
